@@ -40,18 +40,18 @@ Fixpoint feed (acc : oracle) (ls : list layer) (s : sink) (cs : list bytes)
   | c :: t => bind (write_all acc ls s c) (fun st => feed acc (fst st) (snd st) t)
   end.
 
+Definition pad_chunks (p : params) (cs : list bytes) : list bytes :=
+  match p_min p with
+  | None => cs
+  | Some m =>
+    if p_right p then repeat (p_fill p) (m - char_starts (concat cs)) ++ [concat cs]
+    else cs ++ repeat (p_fill p) (m - char_starts (concat cs))
+  end.
+
 Definition fit_chunks (p : params) (cs : list bytes) : list bytes :=
-  let padded :=
-    match p_min p with
-    | None => cs
-    | Some m =>
-      let k := m - char_starts (concat cs) in
-      if p_right p then repeat (p_fill p) k ++ [concat cs]
-      else cs ++ repeat (p_fill p) k
-    end in
   match p_max p with
-  | None => padded
-  | Some M => cut_chunks M padded
+  | None => pad_chunks p cs
+  | Some M => cut_chunks M (pad_chunks p cs)
   end.
 
 Fixpoint chunks_of (q : pat) : list bytes :=
@@ -444,7 +444,7 @@ Lemma group_feed : forall p cs ls s,
                 (fun st => finish acc (fst st) (snd st))) drop_max
    end) = feed acc ls s (fit_chunks p cs).
 Proof.
-  intros p cs ls s. unfold fit_chunks.
+  intros p cs ls s. unfold fit_chunks, pad_chunks.
   destruct (p_min p) as [m|], (p_max p) as [M|], (p_right p).
   - (* right, both *)
     rewrite right_feed. cbn [bind fst snd app]. rewrite finish_right, max_feed.
@@ -564,18 +564,18 @@ Fixpoint cutc (r : nat) (css : list text) : list text :=
   | l :: t => firstn r l :: cutc (r - length (firstn r l)) t
   end.
 
+Definition cpad_chunks (p : params) (css : list text) : list text :=
+  match p_min p with
+  | None => css
+  | Some m =>
+    if p_right p then repeat [p_fill p] (m - length (concat css)) ++ [concat css]
+    else css ++ repeat [p_fill p] (m - length (concat css))
+  end.
+
 Definition cfit_chunks (p : params) (css : list text) : list text :=
-  let padded :=
-    match p_min p with
-    | None => css
-    | Some m =>
-      let k := m - length (concat css) in
-      if p_right p then repeat [p_fill p] k ++ [concat css]
-      else css ++ repeat [p_fill p] k
-    end in
   match p_max p with
-  | None => padded
-  | Some M => cutc M padded
+  | None => cpad_chunks p css
+  | Some M => cutc M (cpad_chunks p css)
   end.
 
 Fixpoint cchunks_of (t : cpat) : list text :=
@@ -711,12 +711,12 @@ Proof.
       apply firstn_all2. rewrite app_length, repeat_length. lia.
 Qed.
 
-Lemma fit_chunks_aligned : forall p css,
+Lemma pad_chunks_aligned : forall p css,
   uchar_ok (p_fill p) -> Forall (Forall uchar_ok) css ->
-  fit_chunks p (map encs css) = map encs (cfit_chunks p css)
-  /\ Forall (Forall uchar_ok) (cfit_chunks p css).
+  pad_chunks p (map encs css) = map encs (cpad_chunks p css)
+  /\ Forall (Forall uchar_ok) (cpad_chunks p css).
 Proof.
-  intros p css Hf H. unfold fit_chunks, cfit_chunks.
+  intros p css Hf H. unfold pad_chunks, cpad_chunks.
   assert (Hcc : Forall uchar_ok (concat css)) by (apply Forall_concat_; assumption).
   assert (Hn : char_starts (concat (map encs css)) = length (concat css)).
   { rewrite encs_concat. apply cs_encs. assumption. }
@@ -724,49 +724,44 @@ Proof.
   { intros k. rewrite map_repeat_. unfold encs. cbn [concat]. rewrite app_nil_r. reflexivity. }
   assert (Hpad : forall k, Forall (Forall uchar_ok) (repeat [p_fill p] k)).
   { intros k. apply Forall_repeat_. constructor; [assumption|constructor]. }
-  set (padded_b := match p_min p with
-                   | Some m => if p_right p
-                               then repeat (p_fill p) (m - char_starts (concat (map encs css)))
-                                    ++ [concat (map encs css)]
-                               else map encs css ++ repeat (p_fill p) (m - char_starts (concat (map encs css)))
-                   | None => map encs css end).
-  set (padded_c := match p_min p with
-                   | Some m => if p_right p
-                               then repeat [p_fill p] (m - length (concat css)) ++ [concat css]
-                               else css ++ repeat [p_fill p] (m - length (concat css))
-                   | None => css end).
-  assert (Hp : padded_b = map encs padded_c /\ Forall (Forall uchar_ok) padded_c).
-  { unfold padded_b, padded_c. destruct (p_min p) as [m|]; [|split; [reflexivity|assumption]].
-    rewrite Hn. destruct (p_right p).
-    - split.
-      + rewrite map_app, <- Hfill. cbn [map]. rewrite encs_concat. reflexivity.
-      + apply Forall_app. split; [apply Hpad|]. constructor; [assumption|constructor].
-    - split.
-      + rewrite map_app, <- Hfill. reflexivity.
-      + apply Forall_app. split; [assumption|apply Hpad]. }
-  destruct Hp as [Hp1 Hp2]. rewrite Hp1.
+  destruct (p_min p) as [m|]; [|split; [reflexivity|assumption]].
+  rewrite Hn. destruct (p_right p).
+  - split.
+    + rewrite map_app, <- Hfill. cbn [map]. rewrite encs_concat. reflexivity.
+    + apply Forall_app. split; [apply Hpad|]. constructor; [assumption|constructor].
+  - split.
+    + rewrite map_app, <- Hfill. reflexivity.
+    + apply Forall_app. split; [assumption|apply Hpad].
+Qed.
+
+Lemma fit_chunks_aligned : forall p css,
+  uchar_ok (p_fill p) -> Forall (Forall uchar_ok) css ->
+  fit_chunks p (map encs css) = map encs (cfit_chunks p css)
+  /\ Forall (Forall uchar_ok) (cfit_chunks p css).
+Proof.
+  intros p css Hf H. unfold fit_chunks, cfit_chunks.
+  destruct (pad_chunks_aligned p css Hf H) as [Hp1 Hp2]. rewrite Hp1.
   destruct (p_max p) as [M|].
   - split; [apply cut_chunks_aligned; assumption|apply Forall_cutc; assumption].
   - split; [reflexivity|assumption].
+Qed.
+
+Lemma concat_cpad_chunks : forall p css,
+  concat (cpad_chunks p css) = pad (p_min p) (p_fill p) (p_right p) (concat css).
+Proof.
+  intros p css. unfold cpad_chunks, pad. destruct (p_min p) as [m|]; [|reflexivity].
+  destruct (p_right p); rewrite concat_app, concat_repeat_single; [|reflexivity].
+  cbn [concat]. rewrite app_nil_r. reflexivity.
 Qed.
 
 Lemma concat_cfit_chunks : forall p css, widths_ok p ->
   concat (cfit_chunks p css) = fitp p (concat css).
 Proof.
   intros p css Hw. unfold cfit_chunks, fitp, fit, widths_ok in *.
-  set (padded := match p_min p with
-                 | Some m => if p_right p
-                             then repeat [p_fill p] (m - length (concat css)) ++ [concat css]
-                             else css ++ repeat [p_fill p] (m - length (concat css))
-                 | None => css end).
-  assert (Hp : concat padded = pad (p_min p) (p_fill p) (p_right p) (concat css)).
-  { unfold padded, pad. destruct (p_min p) as [m|]; [|reflexivity].
-    destruct (p_right p); rewrite concat_app, concat_repeat_single; [|reflexivity].
-    cbn [concat]. rewrite app_nil_r. reflexivity. }
   destruct (p_max p) as [M|]; cbn [trunc].
-  - rewrite concat_cutc, Hp. destruct (p_min p) as [m|]; [|reflexivity].
+  - rewrite concat_cutc, concat_cpad_chunks. destruct (p_min p) as [m|]; [|reflexivity].
     apply firstn_pad. assumption.
-  - exact Hp.
+  - apply concat_cpad_chunks.
 Qed.
 
 Lemma chunks_aligned : forall t, chars_ok t ->
@@ -907,4 +902,197 @@ Theorem right_align_correct : forall acc m oM f css,
   = Some (encs (fit (Some m) oM f true (concat css))).
 Proof.
   intros acc m oM f css H Hf Hw. rewrite single_spec_correct; auto.
+Qed.
+
+(* ------------------------------------------------------------------ *)
+(* no hypothesis on the widths: what the code does in general is PAD, THEN
+   TRUNCATE (the padding goes through the max-width layer); for min <= max this
+   is the law `fit` (firstn_pad), for min > max it is not (Props: example).     *)
+
+Definition fit_code (p : params) (l : text) : text :=
+  trunc (p_max p) (pad (p_min p) (p_fill p) (p_right p) l).
+
+Lemma concat_cfit_chunks_gen : forall p css, concat (cfit_chunks p css) = fit_code p (concat css).
+Proof.
+  intros p css. unfold cfit_chunks, fit_code.
+  destruct (p_max p) as [M|]; cbn [trunc].
+  - rewrite concat_cutc, concat_cpad_chunks. reflexivity.
+  - apply concat_cpad_chunks.
+Qed.
+
+Lemma fit_code_fitp : forall p l, widths_ok p -> fit_code p l = fitp p l.
+Proof.
+  intros p l H. unfold fit_code, fitp, fit, widths_ok in *.
+  destruct (p_max p) as [M|]; cbn [trunc]; [|reflexivity].
+  destruct (p_min p) as [m|]; [|reflexivity]. apply firstn_pad. assumption.
+Qed.
+
+Fixpoint meaning_code (t : cpat) : text :=
+  match t with
+  | CNil => []
+  | CChunk l rest => l ++ meaning_code rest
+  | CGroup p body rest => fit_code p (meaning_code body) ++ meaning_code rest
+  end.
+
+Lemma concat_cchunks_of_gen : forall t, concat (cchunks_of t) = meaning_code t.
+Proof.
+  induction t as [|l rest IH|p body IHb rest IHr]; cbn [cchunks_of meaning_code concat].
+  - reflexivity.
+  - rewrite IH. reflexivity.
+  - rewrite concat_app, concat_cfit_chunks_gen, IHb, IHr. reflexivity.
+Qed.
+
+Theorem pattern_meaning_code : forall acc t, chars_ok t ->
+  run_pattern acc (bytes_of t) = Some (encs (meaning_code t)).
+Proof.
+  intros acc t H. rewrite run_pattern_bytes. destruct (chunks_aligned t H) as [E F].
+  rewrite E, encs_concat, concat_cchunks_of_gen. reflexivity.
+Qed.
+
+Lemma fit_code_length_le : forall p M l, p_max p = Some M -> length (fit_code p l) <= M.
+Proof.
+  intros p M l H. unfold fit_code. rewrite H. cbn [trunc]. apply firstn_le_length.
+Qed.
+
+(* a group with max width M emits the encoding of at most M whole characters,
+   whatever its body (nested groups included), whatever min / alignment / fill *)
+Theorem at_most_M_chars_emitted : forall acc p M body,
+  chars_ok (CGroup p body CNil) -> p_max p = Some M ->
+  exists l, Forall uchar_ok l /\ length l <= M
+            /\ run_pattern acc (bytes_of (CGroup p body CNil)) = Some (encs l).
+Proof.
+  intros acc p M body H HM. exists (fit_code p (meaning_code body)). split; [|split].
+  - destruct (chunks_aligned _ H) as [_ F]. apply Forall_concat_ in F.
+    rewrite concat_cchunks_of_gen in F. cbn [meaning_code] in F. rewrite app_nil_r in F. exact F.
+  - apply fit_code_length_le. assumption.
+  - rewrite pattern_meaning_code by assumption. cbn [meaning_code]. rewrite app_nil_r. reflexivity.
+Qed.
+
+(* ------------------------------------------------------------------ *)
+(* the characters of the output are characters of the pieces or fills: any
+   per-character predicate V (e.g. "is a well-formed UTF-8 scalar value") that
+   holds of all pieces and fills holds of the output                           *)
+
+Fixpoint chars_sat (V : uchar -> Prop) (t : cpat) : Prop :=
+  match t with
+  | CNil => True
+  | CChunk l rest => Forall V l /\ chars_sat V rest
+  | CGroup p body rest => V (p_fill p) /\ chars_sat V body /\ chars_sat V rest
+  end.
+
+Lemma chars_sat_ok : forall (V : uchar -> Prop) t, (forall u, V u -> uchar_ok u) ->
+  chars_sat V t -> chars_ok t.
+Proof.
+  intros V t HV. induction t as [|l rest IH|p body IHb rest IHr]; cbn [chars_sat chars_ok]; intros H.
+  - exact I.
+  - destruct H as [Hl Hr]. split; [|apply IH; assumption].
+    eapply Forall_impl; [|exact Hl]. exact HV.
+  - destruct H as [Hf [Hb Hr]]. auto.
+Qed.
+
+Lemma Forall_trunc : forall (V : uchar -> Prop) M l, Forall V l -> Forall V (trunc M l).
+Proof. intros V [M|] l H; cbn [trunc]; [apply Forall_firstn_|]; assumption. Qed.
+
+Lemma Forall_pad : forall (V : uchar -> Prop) m f right l, V f -> Forall V l -> Forall V (pad m f right l).
+Proof.
+  intros V m f right l Hf Hl. unfold pad. destruct m as [m|]; [|assumption].
+  destruct right; apply Forall_app; split; try assumption; apply Forall_repeat_; assumption.
+Qed.
+
+Lemma meaning_code_sat : forall (V : uchar -> Prop) t, chars_sat V t -> Forall V (meaning_code t).
+Proof.
+  intros V. induction t as [|l rest IH|p body IHb rest IHr]; cbn [chars_sat meaning_code]; intros H.
+  - constructor.
+  - destruct H as [Hl Hr]. apply Forall_app. split; [assumption|apply IH; assumption].
+  - destruct H as [Hf [Hb Hr]]. apply Forall_app. split; [|apply IHr; assumption].
+    unfold fit_code. apply Forall_trunc, Forall_pad; [assumption|apply IHb; assumption].
+Qed.
+
+Theorem output_chars_sat : forall (V : uchar -> Prop) acc t,
+  (forall u, V u -> uchar_ok u) -> chars_sat V t ->
+  exists l, Forall V l /\ run_pattern acc (bytes_of t) = Some (encs l).
+Proof.
+  intros V acc t HV H. exists (meaning_code t). split; [apply meaning_code_sat; assumption|].
+  apply pattern_meaning_code. eapply chars_sat_ok; eassumption.
+Qed.
+
+(* well-formed UTF-8 encoding of one Unicode scalar value (RFC 3629 / Unicode
+   table 3-7: no overlongs, no surrogates, nothing above U+10FFFF) *)
+Definition cont (b : byte) : bool := ((128 <=? b) && (b <=? 191))%N.
+Definition between (lo b hi : N) : bool := ((lo <=? b) && (b <=? hi))%N.
+
+Definition utf8_scalar (u : uchar) : bool :=
+  match u with
+  | [a] => (a <? 128)%N
+  | [a; b] => between 194 a 223 && cont b
+  | [a; b; c] =>
+    ((a =? 224)%N && between 160 b 191
+     || between 225 a 236 && cont b
+     || (a =? 237)%N && between 128 b 159
+     || between 238 a 239 && cont b) && cont c
+  | [a; b; c; d] =>
+    ((a =? 240)%N && between 144 b 191
+     || between 241 a 243 && cont b
+     || (a =? 244)%N && between 128 b 143) && cont c && cont d
+  | _ => false
+  end.
+
+Lemma cont_not_boundary : forall b, cont b = true -> is_boundary b = false.
+Proof.
+  intros b H. unfold cont in H. apply andb_true_iff in H. destruct H as [H1 H2].
+  apply N.leb_le in H1. apply N.leb_le in H2. unfold is_boundary.
+  apply orb_false_iff. split; [apply N.ltb_ge|apply N.leb_gt]; lia.
+Qed.
+
+Lemma between_cont : forall lo b hi, (128 <= lo)%N -> (hi <= 191)%N -> between lo b hi = true -> cont b = true.
+Proof.
+  intros lo b hi Hlo Hhi H. unfold between in H. apply andb_true_iff in H. destruct H as [H1 H2].
+  apply N.leb_le in H1. apply N.leb_le in H2. unfold cont. apply andb_true_iff.
+  split; apply N.leb_le; lia.
+Qed.
+
+Lemma between_lead : forall lo b hi, (192 <= lo)%N -> between lo b hi = true -> is_boundary b = true.
+Proof.
+  intros lo b hi Hlo H. unfold between in H. apply andb_true_iff in H. destruct H as [H1 _].
+  apply N.leb_le in H1. unfold is_boundary. apply orb_true_iff. right. apply N.leb_le. lia.
+Qed.
+
+Lemma eqb_lead : forall a k, (192 <= k)%N -> (a =? k)%N = true -> is_boundary a = true.
+Proof.
+  intros a k Hk H. apply N.eqb_eq in H. subst a. unfold is_boundary. apply orb_true_iff. right.
+  apply N.leb_le. assumption.
+Qed.
+
+Lemma utf8_scalar_ok : forall u, utf8_scalar u = true -> uchar_ok u.
+Proof.
+  intros u H. destruct u as [|a [|b [|c [|d [|e u]]]]]; cbn [utf8_scalar] in H; try discriminate.
+  - split; [|constructor]. unfold is_boundary. rewrite H. reflexivity.
+  - apply andb_true_iff in H. destruct H as [Ha Hb]. split.
+    + eapply between_lead; [|exact Ha]. lia.
+    + repeat constructor. apply cont_not_boundary. assumption.
+  - apply andb_true_iff in H. destruct H as [Hab Hc].
+    assert (Hb : is_boundary a = true /\ cont b = true).
+    { repeat (apply orb_true_iff in Hab; destruct Hab as [Hab|Hab]);
+        apply andb_true_iff in Hab; destruct Hab as [Ha Hb]; split;
+        first [ eapply eqb_lead; [|exact Ha]; lia | eapply between_lead; [|exact Ha]; lia
+              | eapply between_cont; [| |exact Hb]; lia | exact Hb ]. }
+    destruct Hb as [Ha Hb]. split; [assumption|].
+    repeat constructor; apply cont_not_boundary; assumption.
+  - apply andb_true_iff in H. destruct H as [H Hd]. apply andb_true_iff in H. destruct H as [Hab Hc].
+    assert (Hb : is_boundary a = true /\ cont b = true).
+    { repeat (apply orb_true_iff in Hab; destruct Hab as [Hab|Hab]);
+        apply andb_true_iff in Hab; destruct Hab as [Ha Hb]; split;
+        first [ eapply eqb_lead; [|exact Ha]; lia | eapply between_lead; [|exact Ha]; lia
+              | eapply between_cont; [| |exact Hb]; lia | exact Hb ]. }
+    destruct Hb as [Ha Hb]. split; [assumption|].
+    repeat constructor; apply cont_not_boundary; assumption.
+Qed.
+
+(* the output is valid UTF-8 whenever all pieces and fills are: it is the
+   concatenation of well-formed scalar-value encodings — even with min > max *)
+Theorem output_valid_utf8 : forall acc t,
+  chars_sat (fun u => utf8_scalar u = true) t ->
+  exists l, Forall (fun u => utf8_scalar u = true) l /\ run_pattern acc (bytes_of t) = Some (encs l).
+Proof.
+  intros acc t H. apply output_chars_sat; [exact utf8_scalar_ok|assumption].
 Qed.
